@@ -7,6 +7,11 @@
 package main
 
 import (
+	"go/ast"
+	"go/parser"
+	"go/token"
+	"path/filepath"
+	"strconv"
 	"context"
 	"encoding/json"
 	"errors"
@@ -448,6 +453,12 @@ func runCase(raw json.RawMessage) interface{} {
 	if c.Mode == "uuid" {
 		return runUUID(c)
 	}
+	if c.Mode == "hybridnx" {
+		return runHybridNX(c)
+	}
+	if c.Mode == "nodehb" {
+		return runNodeHB(c)
+	}
 	if c.Mode == "ttl" {
 		return runTTL(c)
 	}
@@ -474,6 +485,59 @@ func gen() {
 	_, ok := st.(storage.CASStore)
 	fmt.Printf("Definition memory_store_has_SetNX : bool := %v.\n", ok)
 	_ = strings.TrimSpace
+	// node-id lease: lifetime of the slot marker (exported constant) and heartbeat period (literal of time.NewTicker in
+	// heartbeatLoop, read from the syntax tree of the working tree's node_id_allocator.go)
+	fmt.Printf("Definition NodeLockTTLSeconds : nat := %d.\n", int(node.NodeIDLockTTL/time.Second))
+	period := 0
+	if len(os.Args) > 2 {
+		period = heartbeatPeriodSeconds(filepath.Join(os.Args[2], "internal", "core", "node", "node_id_allocator.go"))
+	}
+	fmt.Printf("Definition NodeHeartbeatSeconds : nat := %d.\n", period)
+}
+
+// heartbeatPeriodSeconds finds `time.NewTicker(<n> * time.Second)` inside func heartbeatLoop; 0 when the shape is not found
+func heartbeatPeriodSeconds(path string) int {
+	fset := token.NewFileSet()
+	f, err := parser.ParseFile(fset, path, nil, 0)
+	if err != nil {
+		return 0
+	}
+	res := 0
+	for _, d := range f.Decls {
+		fd, ok := d.(*ast.FuncDecl)
+		if !ok || fd.Name.Name != "heartbeatLoop" || fd.Body == nil {
+			continue
+		}
+		ast.Inspect(fd.Body, func(n ast.Node) bool {
+			call, ok := n.(*ast.CallExpr)
+			if !ok || len(call.Args) != 1 {
+				return true
+			}
+			sel, ok := call.Fun.(*ast.SelectorExpr)
+			if !ok || sel.Sel.Name != "NewTicker" {
+				return true
+			}
+			if be, ok := call.Args[0].(*ast.BinaryExpr); ok && be.Op == token.MUL {
+				lit, unit := be.X, be.Y
+				if _, isLit := lit.(*ast.BasicLit); !isLit {
+					lit, unit = be.Y, be.X
+				}
+				bl, ok1 := lit.(*ast.BasicLit)
+				us, ok2 := unit.(*ast.SelectorExpr)
+				if ok1 && ok2 {
+					v, _ := strconv.Atoi(bl.Value)
+					switch us.Sel.Name {
+					case "Second":
+						res = v
+					case "Minute":
+						res = 60 * v
+					}
+				}
+			}
+			return true
+		})
+	}
+	return res
 }
 
 func main() {
